@@ -107,6 +107,36 @@ def mutate(doc, path, kind, rng):
     return d
 
 
+def cde_mistyped_fields(doc):
+    """names of the optional integer fields of a CdE export that are present with a value that is neither null nor a non-negative integer
+    (the reader treats them as absent: known finding D17)"""
+    def bad(v):
+        return v is not None and not (isinstance(v, int) and not isinstance(v, bool) and 0 <= v < 2 ** 64)
+    found = set()
+    try:
+        for c in (doc.get("courses") or {}).values():
+            if isinstance(c, dict):
+                for k in ("max_size", "min_size"):
+                    if k in c and bad(c[k]):
+                        found.add(k)
+        for reg in (doc.get("registrations") or {}).values():
+            trs = reg.get("tracks") if isinstance(reg, dict) else None
+            for td in (trs.values() if isinstance(trs, dict) else []):
+                if isinstance(td, dict):
+                    for k in ("course_id", "course_instructor"):
+                        if k in td and bad(td[k]):
+                            found.add(k)
+        parts = ((doc.get("event") or {}).get("parts") or {}) if isinstance(doc.get("event"), dict) else {}
+        for part in (parts.values() if isinstance(parts, dict) else []):
+            trs = part.get("tracks") if isinstance(part, dict) else None
+            for td in (trs.values() if isinstance(trs, dict) else []):
+                if isinstance(td, dict) and "num_choices" in td and bad(td["num_choices"]):
+                    found.add("num_choices")
+    except Exception:
+        return []
+    return sorted(found)
+
+
 def scenarios_c15(ctx, binpath, count):
     """list of (label, args, flags or None (to be probed), out path)"""
     d = os.path.join(ctx.work, "faults")
@@ -256,6 +286,22 @@ def scenarios_c15(ctx, binpath, count):
             n += 1
             sc.append(("cde:%s:num_choices=%d+unchosen" % (res[:4], v), base[:1] + ign + base[1:] + [fp], None,
                        {"file": fp, "cde": True, "track": track, "probe_extra": ign}))
+        # the optional integer fields with a value of the wrong type (C15: "mistyped fields ... refused"; the reader reads them as absent:
+        # known finding D17)
+        tol = [p for p in paths_in(doc) if p[-1] in ("max_size", "min_size", "course_id", "course_instructor", "num_choices") and len(p) <= 7]
+        rng.shuffle(tol)
+        seen_names = set()
+        for p in tol:
+            if p[-1] in seen_names and len(seen_names) < 5:
+                continue
+            seen_names.add(p[-1])
+            if len([x for x in sc if x[0].startswith("cde:%s:mistyped" % res[:4])]) >= 10:
+                break
+            k = rng.choice(["string", "negative", "float", "list", "bool"])
+            m = mutate(doc, p, k, rng)
+            fp = w("c_%04d.json" % n, json.dumps(m))
+            n += 1
+            sc.append(("cde:%s:mistyped:%s:%s" % (res[:4], k, "/".join(map(str, p))[:60]), base + [fp], None, {"file": fp, "cde": True, "track": track}))
         for ver in ([1, 0], [6, 99], [20, 0], [7], "7.0", [7, 0, 1]):
             m = copy.deepcopy(doc)
             m["EVENT_SCHEMA_VERSION"] = ver
@@ -306,7 +352,13 @@ def run_scenarios(ctx, binpath, scenarios, jobs=16):
                 fl["has_participants"] = pr.get("n_participants", 0) > 0
                 fl["found"] = bool(pr.get("found")) if pr.get("found") is not None else None
         code = 1000 if r["timeout"] else (r["rc"] if r["rc"] is not None and r["rc"] >= 0 else 1001)
-        return {"label": label, "args": a, "flags": fl, "probe": pr, "exit": code, "stderr": r["stderr"][-500:], "outpath": outp,
+        mistyped = []
+        if info.get("cde") and info.get("file") and os.path.isfile(info["file"]):
+            try:
+                mistyped = cde_mistyped_fields(json.load(open(info["file"], encoding="utf-8")))
+            except Exception:
+                mistyped = []
+        return {"mistyped": mistyped, "label": label, "args": a, "flags": fl, "probe": pr, "exit": code, "stderr": r["stderr"][-500:], "outpath": outp,
                 "file_ok": file_state(outp, "--cde" in a) if outp else False,
                 "file_exists": bool(outp and os.path.exists(outp)), "panicked": "panicked" in r["stderr"]}
 
